@@ -62,6 +62,7 @@ class SA:
 
 F1, S1, S2, NC, INS, X0 = Mut(250, "C>T"), Mut(150, "T>A"), Mut(350, "G>A"), Mut(450, "A>C"), Mut(250, "insG"), Mut(550, "C>G")
 ALT250 = Mut(250, "C>A")
+ALT350 = Mut(350, "G>C")  # a site where an allele has exactly one own and one addable variant
 
 
 def sample():
@@ -79,8 +80,8 @@ def sample():
     major_sol = Obj(solution=collections.Counter({SA(gene, "1"): 1, SA(gene, "3"): 2}), cn_solution=cn, added=[],
                     _solution_nice=lambda: "")
     cands = [SA(gene, "1", "1.001"), SA(gene, "1", "1.002"), SA(gene, "3", "3.001")]
-    mutations = {F1, S1, S2, NC, INS, X0, ALT250}
-    support = {F1: 10, S1: 12, S2: 0, NC: 7, INS: 4, X0: 3, ALT250: 5}
+    mutations = {F1, S1, S2, NC, INS, X0, ALT250, ALT350}
+    support = {F1: 10, S1: 12, S2: 0, NC: 7, INS: 4, X0: 3, ALT250: 5, ALT350: 6}
     return gene, major_sol, cands, mutations, support
 
 
@@ -727,6 +728,8 @@ MUTANTS = [
          old='                        model.addConstr(VPHASE[ai, ri] <= VA[a], name=f"PH_{ai}_{ri}")\n', new=""),
     dict(name="R10 read group may be left unexplained", module="minor", expect="C04.R10",
          old='                    model.addConstr(e >= 1, name=f"PHASE4_{ri}_2")\n', new=""),
+    dict(name="R6 per-site rule only when two additions compete (seeded C04_b1 shape)", module="minor", expect="C04.R6",
+         old="            if len(ma) + len(mp) > 1:\n", new="            if len(ma) > 1:\n"),
     # benign
     dict(name="benign: CORD dropped", module="minor", kind="benign",
          old='            model.addConstr(VA[a, cnt] <= VA[a, cnt - 1], name=f"CORD_{a.minor}_{cnt}")', new="            pass"),
